@@ -439,13 +439,20 @@ def t_seed_monotone(ctx):
     ctx.oblige("lemma", "find_islands.accept_rule_antitone_in_seed", Implies(And(s1 <= s2, v > s2), v > s1), nohyps=True)
 
 
+def _island_loop(ctx):
+    from contracts import c03
+    return c03.t_blind_numbers(ctx)
+
+
 def verify(S):
     prop = S.prop
     targets = []
     if prop == "C02":
         targets = [("source_finder.find_islands", lambda c: t_find_islands(c, False)),
                    ("source_finder.find_islands", t_flood_pixels_are_labelled),
-                   ("source_finder.find_islands", t_seed_monotone)]
+                   ("source_finder.find_islands", t_seed_monotone),
+                   # what find_sources_in_image does with the islands: each is cut out (a copy), masked and queued once
+                   ("source_finder.SourceFinder.find_sources_in_image[island_loop]", _island_loop)]
     else:
         targets = [("source_finder.find_islands", lambda c: t_find_islands(c, True))]
     for name, fn in targets:
